@@ -225,8 +225,14 @@ pub fn with<R>(f: impl FnOnce(&mut World) -> R) -> R {
     WORLD.with(|w| f(&mut w.borrow_mut()))
 }
 
+/// like `with`, but gives up (None) if the world is borrowed right now or the thread is shutting down
+pub fn try_with<R>(f: impl FnOnce(&mut World) -> R) -> Option<R> {
+    WORLD.try_with(|w| w.try_borrow_mut().ok().map(|mut g| f(&mut g))).ok().flatten()
+}
+
 /// Start a new simulated process. Handles created before are ignored from now on.
 pub fn reset(cfg: Config) -> u64 {
+    crate::rawsys::sim_fds_on();
     with(|w| {
         let e = w.epoch + 1;
         *w = World::new(cfg, e);
@@ -609,6 +615,15 @@ impl World {
             Some(FdObj::Stream(c)) => Ok(c),
             Some(_) => Err(libc::ENOTSOCK),
             None => Err(libc::EBADF),
+        }
+    }
+
+    pub fn get_nonblocking(&self, fd: Fd) -> bool {
+        match self.obj(fd) {
+            Some(FdObj::Stream(c)) => self.conns[c].server.nonblocking,
+            Some(FdObj::Event(e)) => self.events[e].nonblocking,
+            Some(FdObj::Listener(l)) => self.listeners[l].nonblocking,
+            _ => false,
         }
     }
 
